@@ -8,7 +8,8 @@ Two sources of truth, both read on every run:
     divisors and digit alphabet of utils.c, getBasePrefix and scratch-buffer sizes of parser.c,
     the multiplier *expressions* of units.c, kept as exact rationals).
 
-The functions of fifo.c are translated as a whole (not only tables) by translate/c2lean.py, called from generate().
+The functions of fifo.c are translated as a whole (not only tables) by translate/c2lean.py, the string heap of utils.c by
+translate/c2lean_heap.py; both are called from generate().
 """
 import os, re, subprocess, sys, json
 from fractions import Fraction
@@ -346,9 +347,26 @@ def generate(cfg="A", builddir=None, outpath=None):
                 f.write(_c.stub("ScpiVerif.Gen.FifoC", failed["fifo_c"]))
         except Exception:
             pass
-    return {"changed": old != text or fifo_c.get("changed", False), "path": outpath, "failed": failed,
+    # C -> Lean translation of the string heap of utils.c (Gen/HeapC.lean; configuration B only: -DUSE_MEMORY_ALLOCATION_FREE=0),
+    # same treatment: a refused function is a `NotTranslated` constant, so the theorems of Lemmas/HeapC.lean and
+    # Props/C20Gen.lean about it stop building; section name `heap_c`
+    heap_c = {"functions": [], "changed": False}
+    try:
+        import c2lean_heap
+        heap_c = c2lean_heap.generate_heap(os.path.join(os.path.dirname(outpath), "HeapC.lean"))
+        if heap_c["failed"]:
+            failed["heap_c"] = "; ".join("%s: %s" % kv for kv in sorted(heap_c["failed"].items()))[:400]
+    except Exception as e:
+        failed["heap_c"] = ("c2lean_heap: %s: %s" % (type(e).__name__, e))[:400]
+        try:
+            import c2lean as _c
+            with open(os.path.join(os.path.dirname(outpath), "HeapC.lean"), "w") as f:
+                f.write(_c.stub("ScpiVerif.Gen.HeapC", failed["heap_c"]))
+        except Exception:
+            pass
+    return {"changed": old != text or fifo_c.get("changed", False) or heap_c.get("changed", False), "path": outpath, "failed": failed,
             "rows": {"errclass": len(errclass), "errdesc": len(errdesc), "units": len(unit_rows), "special": len(special),
-                     "fifo_c_functions": len(fifo_c.get("functions", []))}}
+                     "fifo_c_functions": len(fifo_c.get("functions", [])), "heap_c_functions": len(heap_c.get("functions", []))}}
 
 if __name__ == "__main__":
     cfg = sys.argv[1] if len(sys.argv) > 1 else "A"
